@@ -1087,6 +1087,7 @@ size_t DataFieldSet::getLength(PartType partType, size_t maxLength) const {
     if (field->getPartType() == partType) {
       if (!previousFullByteOffset[partType] && !field->hasFullByteOffset(false, previousFirstBit[partType])) {
         length--;
+        maxLength++;  // the shared byte was already accounted for
       }
       size_t fieldLength = field->getLength(partType, maxLength);
       if (fieldLength >= maxLength) {
